@@ -153,6 +153,30 @@ def index_map(ctx, rule="C11.index-map"):
                 ok = all(oks)
                 ctx.ob(rule, f.site, ok, "" if ok else "np.ix_ addresses the transfer matrix with raw mode indices",
                        role="ix", line=n.lineno)
+    # every matrix multiplied into the net transformation has been embedded through the index map (helper call, expand(..) over
+    # mapped modes, or an identity filled through np.ix_ of mapped modes) - never the raw matrix of the operation
+    for rel, qn in ((GU, "GaussianUnitary.compile"), (PV, "Passive.compile")):
+        f = ctx.tree.func(rel, qn)
+        IM, _nm = _roles(f)
+        rd = rd_of(f.node)
+        nets = set()
+        for n in walk_no_nested(f.node):
+            if isinstance(n, ast.Assign) and len(n.targets) == 1 and isinstance(n.targets[0], ast.Name) and \
+                    isinstance(n.value, ast.Call) and dotted(n.value.func) in ("np.identity", "np.eye", "np.zeros"):
+                nets.add(n.targets[0].id)
+        for nd in rd.cfg.nodes:
+            st = nd.ast
+            if nd.kind != "stmt" or not isinstance(st, ast.Assign) or not isinstance(st.value, ast.BinOp) or \
+                    not isinstance(st.value.op, ast.MatMult):
+                continue
+            tg = st.targets[0]
+            if not (isinstance(tg, ast.Name) and tg.id in nets and isinstance(st.value.right, ast.Name) and st.value.right.id == tg.id):
+                continue
+            d = derives(f.node, st.value.left, nd.id)
+            ok = d.has_call("expand") or any(isinstance(e, ast.Subscript) and dotted(e.value) in IM for e in d.exprs)
+            ctx.ob(rule, f.site, ok, "" if ok else f"`{ast.unparse(st)[:50]}` multiplies the raw matrix of the operation into the net "
+                   "transformation: its rows follow the order in which the operation lists its modes, not the rows of the net matrix",
+                   role="embedded-product", line=st.lineno)
     ctx.floor(rule, 40)
 
 
@@ -203,6 +227,27 @@ def dispatch(ctx, rule="C11.dispatch"):
                    "dispatch: the command is silently dropped from the compiled program", role=f"primitive:{p}",
                    line=f.node.lineno)
     ctx.floor(rule, 18)
+
+
+def unfiltered(ctx, rule="C11.dispatch"):
+    ctx.explain(f"{rule}: (unfiltered) the merging compilers work on every command they are handed: the sequence they iterate / store "
+                "is the `seq` argument itself, not a filtered copy (commands disappear only by being folded into a merged operation).")
+    for rel, qn in ((GM, "GaussianMerge.compile"), (GU, "GaussianUnitary.compile"), (PV, "Passive.compile")):
+        f = ctx.tree.func(rel, qn)
+        seqp = f.pos_params[1]
+        bad = None
+        for n in walk_no_nested(f.node):
+            if isinstance(n, (ast.ListComp, ast.GeneratorExp)) and any(g.ifs for g in n.generators) and \
+                    any(seqp in derives(f.node, g.iter).params for g in n.generators):
+                elt_is_item = isinstance(n.elt, ast.Name) and any(isinstance(g.target, ast.Name) and g.target.id == n.elt.id
+                                                                   for g in n.generators)
+                if elt_is_item:
+                    bad = n
+            if isinstance(n, ast.Call) and dotted(n.func) == "filter" and any(seqp in derives(f.node, a).params for a in n.args):
+                bad = n
+        ctx.ob(rule, f.site, bad is None, "" if bad is None else f"`{ast.unparse(bad)[:60]}` drops commands of the input before "
+               "compiling: whatever the filter calls an identity is removed from the program", role="unfiltered-input",
+               line=(bad.lineno if bad is not None else f.node.lineno))
 
 
 def nonempty(ctx, rule="C11.nonempty"):
@@ -275,6 +320,7 @@ def rules(ctx):
     index_map(ctx)
     dagger(ctx)
     dispatch(ctx)
+    unfiltered(ctx)
     nonempty(ctx)
     from . import common_backend as _B
     _B.polar_pair(ctx, "C11.polar", ("compilers/gaussian_unitary.py", "compilers/gaussian_merge.py"))
